@@ -65,7 +65,7 @@ def _drive_ipm(args):
         for e in ipmc.read_all_events(1, data[:k], enc, bc, blocked):
             e.pop('_exc', None)
             events.append(e)
-    return {'tid': tid * 100 + lo // 400, 'loc': False, 'strict': False, 'insts': [{'blk': blocked}], 'events': events,
+    return {'tid': tid * 100 + lo // 400, 'loc': False, 'strict': False, 'cols': [], 'insts': [{'blk': blocked}], 'events': events,
             '_enc': enc, '_desc': '%s IPM file (%s) of %d bytes, %d messages, every cut %d..%d' % (
                 'blocked' if blocked else 'unblocked', enc, len(data), len(msgs), lo, hi)}
 
